@@ -58,6 +58,19 @@ class _MapToGen(ast.NodeTransformer):
 class _Untuple(ast.NodeTransformer):
     def visit_Assign(self, node):
         self.generic_visit(node)
+        # parallel assignment `a, b = x, y` (take-and-clear by tuple swap): sequential when no earlier target is read later
+        if len(node.targets) == 1 and isinstance(node.targets[0], (ast.Tuple, ast.List)) and isinstance(node.value, (ast.Tuple, ast.List)) \
+                and len(node.targets[0].elts) == len(node.value.elts) > 1 and not any(isinstance(x, ast.Starred) for x in node.targets[0].elts + node.value.elts):
+            tg, vs = node.targets[0].elts, node.value.elts
+            paths = [q.dotted(t) for t in tg]
+            safe = all(p is not None for p in paths)
+            if safe:
+                for i, p in enumerate(paths):
+                    for v in vs[i + 1:]:
+                        if any(m == p or m.startswith(p + ".") or p.startswith(m + ".") and m != "self" for m in q.paths_in(v)):
+                            safe = False
+            if safe:
+                return [ast.copy_location(ast.Assign(targets=[t], value=v), node) for t, v in zip(tg, vs)]
         if len(node.targets) == 1 and isinstance(node.targets[0], (ast.Tuple, ast.List)) and len(node.targets[0].elts) == 1 and not isinstance(node.targets[0].elts[0], ast.Starred):
             t = node.targets[0].elts[0]
             new = ast.Assign(targets=[t], value=ast.Subscript(value=node.value, slice=ast.Constant(value=0), ctx=ast.Load()))
